@@ -1,0 +1,11 @@
+//go:build verif && !race
+// +build verif,!race
+
+package decimal
+
+import "sync/atomic"
+
+// verifCount counts a hit of site.
+func verifCount(site int) {
+	atomic.AddUint64(&VerifHits[site], 1)
+}
